@@ -1,4 +1,367 @@
+/-
+Driver for C12: reads cases of op lines produced by the Go harness (which ran the REAL CircularQueue,
+UnionNode, JoinNode and real tasks), replays every case on the model and on the spec, and judges
+  * the spec on the OBSERVED output (SPECFAIL: the property itself is false of what the code did), then
+  * observed = model (MISMATCH: the transcription no longer matches the code).
+-/
 import Kap.Basic
+import Kap.Spec.C12
+open Kap Kap.C12
 
-/-- Driver for property C12 (replaced by the property's driver). -/
-def main : IO Unit := Kap.driverMain (fun _ _ => .badop "driver not implemented")
+namespace Kap.C12.Drv
+
+def renderList (l : List String) : String := if l.isEmpty then "-" else ",".intercalate l
+def splitList (s : String) : List String := if s == "-" || s.isEmpty then [] else s.splitOn ","
+
+def kvOf (toks : List String) : List (String × String) :=
+  toks.filterMap (fun t => match t.splitOn "=" with
+    | k :: v :: rest => some (k, "=".intercalate (v :: rest))
+    | _ => none)
+
+def kvGet (m : List (String × String)) (k : String) : Option String := (m.find? (·.1 == k)).map (·.2)
+
+def optT : Option Int → String
+  | none => "z"
+  | some t => toString t
+
+def sortStrings (l : List String) : List String := l.mergeSort (fun a b => decide (a ≤ b))
+
+/-! ### circular queue -/
+
+def cqRender (q : CQ Nat) : List String :=
+  [s!"h={q.head}", s!"t={q.tail}", s!"l={q.len}",
+   "d=" ++ renderList (q.data.map (fun s => toString (s.getD 0))),
+   "c=" ++ renderList (q.toList.map toString)]
+
+def cqBranches (q : CQ Nat) (op : String) (n : Int) : List String :=
+  match op with
+  | "enq" =>
+    if q.cap > q.len then (if q.tail = q.cap then ["enq-wrap-tail"] else if q.head > q.tail then ["enq-wrapped"] else ["enq-plain"])
+    else if q.head < q.tail then ["grow-linear"] else if q.head = q.cap then ["grow-head-at-cap"] else ["grow-wrapped"]
+  | "deq" =>
+    if n ≤ 0 then ["deq-nonpositive"] else
+    let m := if q.len ≤ n.toNat then q.len else n.toNat
+    (if q.len ≤ n.toNat then (if q.len < n.toNat then ["deq-more-than-len"] else ["deq-all"]) else ["deq-some"]) ++
+    (if q.head > q.tail then (if m > q.cap - q.head then ["deq-clear-across-wrap"] else ["deq-clear-wrapped"])
+     else if q.head = q.tail ∧ q.len > 0 then ["deq-full-ring-clears-nothing"] else []) ++
+    (if q.head + m = q.cap ∧ q.len > m then ["deq-head-lands-on-cap"] else if q.head + m > q.cap then ["deq-head-wraps"] else [])
+  | _ => []
+
+/-! ### union -/
+
+def uRenderOut (o : List (Nat × UMsg)) : String := renderList (o.map (fun p => s!"{p.2.id}:{p.2.time}:{esc p.2.name}"))
+
+def uRenderState (s : UState (CQ UMsg)) : String :=
+  "S;" ++ renderList (s.sources.map (fun q => s!"{q.head}.{q.tail}.{q.len}.{q.cap}")) ++ ";" ++ renderList (s.lowMarks.map optT)
+
+/-! ### join -/
+
+def parsePairs (s : String) : Option (List (String × String)) :=
+  (splitList s).mapM (fun e => match e.splitOn "=" with
+    | k :: v :: rest => do pure ((← unesc k), "=".intercalate (v :: rest))
+    | _ => none)
+
+def parseCfg (toks : List String) : Option JCfg := do
+  let m := kvOf toks
+  let n ← (← kvGet m "n").toNat?
+  let tol ← (← kvGet m "tol").toInt?
+  let names ← (splitList (← kvGet m "names")).mapM unesc
+  let fill : Fill := match kvGet m "fill" with
+    | some "null" => .null
+    | some "none" => .none
+    | some tok => .num tok
+    | none => .none
+  let delim ← match kvGet m "delim" with
+    | some d => unesc d
+    | none => some "."
+  let sname ← match kvGet m "sname" with
+    | some d => unesc d
+    | none => some ""
+  pure { parents := n, tol := tol, fill := fill, names := names, delim := delim, sname := sname }
+
+def parseMsg (time : Int) (toks : List String) : Option JMsg := do
+  let m := kvOf toks
+  let name ← unesc (← kvGet m "name")
+  let grp ← unesc (← kvGet m "grp")
+  let dims ← (splitList ((kvGet m "dims").getD "-")).mapM unesc
+  let tags ← parsePairs ((kvGet m "tags").getD "-")
+  let tags ← tags.mapM (fun kv => do pure (kv.1, (← unesc kv.2)))
+  let fields ← parsePairs ((kvGet m "fields").getD "-")
+  pure { time := time, name := name, grp := grp, byName := (kvGet m "byname") == some "1", dims := dims, tags := tags, fields := fields }
+
+def sortPairs (l : List (String × String)) : List (String × String) := l.mergeSort (fun a b => decide (a.1 ≤ b.1))
+
+def renderOut (o : JOut) : String :=
+  let dims := renderList (o.dims.map esc)
+  let tags := renderList ((sortPairs o.tags).map (fun kv => esc kv.1 ++ "=" ++ esc kv.2))
+  let fields := renderList ((sortPairs o.fields).map (fun kv => esc kv.1 ++ "=" ++ kv.2))
+  s!"P;{esc o.name};{o.time};{boolTok o.byName};{dims};{tags};{fields}"
+
+def renderGroups (nd : JNode) : List String :=
+  let gs := nd.groups.mergeSort (fun a b => decide (a.1 ≤ b.1))
+  gs.map (fun (k, g) =>
+    let times := (g.sets.map (fun p => (p.1, p.2.length))).mergeSort (fun a b => decide (a.1 ≤ b.1))
+    s!"G;{esc k};{optT g.oldest};{renderList (g.head.map optT)};{renderList (times.map (fun p => s!"{p.1}*{p.2}"))}")
+
+def statusTok : Status → String
+  | .ok => "ok" | .panic => "panic" | .fuel => "fuel"
+
+/-- A finished run: configuration text, per-parent sequences, the observed output multiset (sorted tokens). -/
+structure RunRec where
+  cfg : String
+  seqs : List (List String)
+  out : List String
+
+structure St where
+  kind : String := ""
+  -- queue
+  cq : CQ Nat := CQ.new []
+  cqSpec : List Nat := []
+  -- union
+  un : UState (CQ UMsg) := Union.init 0
+  uN : Nat := 0
+  uRename : String := ""
+  uArr : List (Nat × UMsg) := []          -- arrivals so far (renamed), reversed
+  uObs : List (Nat × UMsg) := []          -- observed output so far (tagged), reversed
+  uRaw : List String := []                -- op text of the arrivals (for run comparison), reversed
+  -- join
+  jcfg : JCfg := { parents := 0, tol := 0, fill := .none, names := [], delim := ".", sname := "" }
+  jcfgText : String := ""
+  jn : JNode := JNode.init
+  jArr : List (Nat × JMsg) := []          -- point arrivals, reversed
+  jSteps : List (Nat × String × Int) := []  -- (parent, group, time) of points and barriers, reversed
+  jObs : List String := []                -- observed point tokens so far
+  jRaw : List (Nat × String) := []        -- (parent, op text) reversed
+  jDead : Bool := false
+  jBars : Bool := false
+  runs : List RunRec := []
+  branches : List String := []
+  nontrivial : Bool := false
+
+def addBr (st : St) (b : String) : St := if st.branches.contains b then st else { st with branches := b :: st.branches }
+def addBrs (st : St) (bs : List String) : St := bs.foldl addBr st
+
+def seqsOf (n : Nat) (raw : List (Nat × String)) : List (List String) :=
+  (List.range n).map (fun i => (raw.reverse.filter (·.1 == i)).map (·.2))
+
+/-- Compare a finished run with earlier runs of the case over the same per-parent sequences. -/
+def crossCheck (st : St) (r : RunRec) : Option String :=
+  match st.runs.find? (fun p => p.cfg == r.cfg && p.seqs == r.seqs) with
+  | some p => if p.out == r.out then none else some s!"same parents, other interleaving: {p.out} vs {r.out}"
+  | none => none
+
+def joinBranches (_st : St) (g : JGroup JMsg) (src : Nat) (t : Int) : List String :=
+  let q := (alookup t g.sets).getD []
+  (match alookup t g.sets with
+   | none => ["collect-new-time"]
+   | some q => match q.findIdx? (fun x => !x.has src) with
+     | some 0 => ["collect-first-set"]
+     | some _ => ["collect-later-set"]
+     | none => ["collect-enqueue-set"]) ++
+  (match g.oldest with
+   | none => ["oldest-init"]
+   | some o => if t < o then ["oldest-lowered"] else if t = o then ["at-oldest"] else []) ++
+  (if q.length ≥ 2 then ["queue-ge-2"] else [])
+
+def judgeLine (st : St) (l : String) : Except Verdict St := do
+  let (opT, obs) := splitObs (tokens l)
+  match opT with
+  /- ---------------- circular queue ---------------- -/
+  | ["cq", "new", vs] =>
+    let some buf := (splitList vs).mapM String.toNat? | throw (.badop l)
+    let q : CQ Nat := CQ.new buf
+    let st := { st with kind := "cq", cq := q, cqSpec := buf }
+    let st := addBr st (if buf.length < 4 then "new-small" else "new-full")
+    if obs.getLast? != some ("c=" ++ renderList (buf.map toString)) then throw (.specfail "queue-is-fifo" s!"new: spec {buf} observed {obs}")
+    if obs != cqRender q then throw (.mismatch s!"cq new: model {cqRender q} observed {obs}")
+    pure st
+  | ["cq", "enq", v] =>
+    let some v := v.toNat? | throw (.badop l)
+    let st := addBrs st (cqBranches st.cq "enq" 0)
+    let q := st.cq.enqueue v
+    let sp := Spec.qStep st.cqSpec (.enq v)
+    if obs.getLast? != some ("c=" ++ renderList (sp.map toString)) then throw (.specfail "queue-is-fifo" s!"enq {v}: spec {sp} observed {obs}")
+    if obs != cqRender q then throw (.mismatch s!"cq enq: model {cqRender q} observed {obs}")
+    pure { st with cq := q, cqSpec := sp, nontrivial := st.nontrivial || st.cq.head > 0 }
+  | ["cq", "deq", n] =>
+    let some n := n.toInt? | throw (.badop l)
+    let st := addBrs st (cqBranches st.cq "deq" n)
+    let q := st.cq.dequeue n
+    let sp := Spec.qStep st.cqSpec (.deq n)
+    if obs.getLast? != some ("c=" ++ renderList (sp.map toString)) then throw (.specfail "queue-is-fifo" s!"deq {n}: spec {sp} observed {obs}")
+    if obs != cqRender q then throw (.mismatch s!"cq deq: model {cqRender q} observed {obs}")
+    pure { st with cq := q, cqSpec := sp }
+  | ["cq", "peek", i] =>
+    let some i := i.toInt? | throw (.badop l)
+    let sp := if i < 0 then "panic" else match st.cqSpec[i.toNat]? with | some v => toString v | none => "panic"
+    let m := match st.cq.peek i with | none => "panic" | some s => toString (s.getD 0)
+    let st := addBr st (if sp == "panic" then "peek-out-of-range" else if st.cq.head + i.toNat ≥ st.cq.cap then "peek-wrapped" else "peek-plain")
+    if obs != [sp] then throw (.specfail "queue-is-fifo" s!"peek {i}: spec {sp} observed {obs}")
+    if obs != [m] then throw (.mismatch s!"cq peek: model {m} observed {obs}")
+    pure st
+  /- ---------------- union ---------------- -/
+  | "union" :: "new" :: rest =>
+    let m := kvOf rest
+    let some n := (kvGet m "n").bind String.toNat? | throw (.badop l)
+    let some rn := (kvGet m "rename").bind unesc | throw (.badop l)
+    if obs != ["ok"] then throw (.mismatch s!"union new: observed {obs}")
+    pure { st with kind := "union", un := Union.init n, uN := n, uRename := rn, uArr := [], uObs := [], uRaw := [] }
+  | ["u", kind, src, t, id] =>
+    let some src := src.toNat? | throw (.badop l)
+    let some t := t.toInt? | throw (.badop l)
+    let some id := id.toNat? | throw (.badop l)
+    let k := if kind == "pt" then 0 else if kind == "bat" then 1 else 2
+    let msg : UMsg := { time := t, id := id, kind := k, name := if k == 2 then "" else s!"m{src}" }
+    if src ≥ st.uN then throw (.badop l)
+    let (s', out, ok) := Union.message st.uRename st.un src msg
+    let st := { st with uArr := (src, Union.renamed st.uRename msg) :: st.uArr, uRaw := s!"{src} {kind} {t} {id}" :: st.uRaw }
+    judgeUnion st l obs s' out ok false
+  | ["u", "fin"] =>
+    let (s', out, ok) := Union.finish st.un
+    judgeUnion st l obs s' out ok true
+  /- ---------------- join ---------------- -/
+  | "join" :: "new" :: rest =>
+    let some cfg := parseCfg rest | throw (.badop l)
+    if obs != ["ok"] then throw (.mismatch s!"join new: observed {obs}")
+    pure { st with kind := "join", jcfg := cfg, jcfgText := " ".intercalate rest, jn := JNode.init, jArr := [], jSteps := [], jObs := [], jRaw := [], jDead := false }
+  | "j" :: "pt" :: src :: t :: rest =>
+    let some src := src.toNat? | throw (.badop l)
+    let some t := t.toInt? | throw (.badop l)
+    let some msg := parseMsg t rest | throw (.badop l)
+    if src ≥ st.jcfg.parents then throw (.badop l)
+    let st := { st with jArr := (src, msg) :: st.jArr, jSteps := (src, msg.grp, t) :: st.jSteps,
+                        jRaw := (src, " ".intercalate ("pt" :: t.repr :: rest)) :: st.jRaw }
+    let st := addBrs st (joinBranches st (st.jn.group st.jcfg msg.grp) src (goRound st.jcfg.tol t))
+    let (nd, sets, status) := st.jn.point st.jcfg src msg
+    judgeJoin st l obs nd sets status [] false
+  | "j" :: "bar" :: src :: t :: rest =>
+    let some src := src.toNat? | throw (.badop l)
+    let some t := t.toInt? | throw (.badop l)
+    let some grp := (kvGet (kvOf rest) "grp").bind unesc | throw (.badop l)
+    if src ≥ st.jcfg.parents then throw (.badop l)
+    let st := { st with jSteps := (src, grp, t) :: st.jSteps, jRaw := (src, " ".intercalate ("bar" :: t.repr :: rest)) :: st.jRaw, jBars := true }
+    let st := addBr st "barrier"
+    let (nd, sets, status) := st.jn.barrier st.jcfg src grp t
+    judgeJoin st l obs nd sets status [s!"B;{t};{esc grp}"] false
+  | ["j", "fin"] =>
+    let (gs, sets, status) := JNode.finish st.jn.groups
+    judgeJoin st l obs { groups := gs } sets status [] true
+  | _ => throw (.badop l)
+where
+  judgeUnion (st : St) (l : String) (obs : List String) (s' : UState (CQ UMsg)) (out : List (Nat × UMsg)) (ok : Bool) (fin : Bool) :
+      Except Verdict St := do
+    if obs == ["dead"] then throw (.mismatch s!"{l}: union node is dead")
+    if obs == ["panic"] || obs == ["err"] then throw (.specfail "union-total" s!"{l}: the union node failed ({obs})")
+    let arrivals := st.uArr.reverse
+    -- tag what was observed with the parent it came from (identity = the id the harness gave the message)
+    let obsToks := match obs with | o :: _ => splitList o | [] => []
+    let mut tagged : List (Nat × UMsg) := []
+    for tok in obsToks do
+      match tok.splitOn ":" with
+      | [id, t, name] =>
+        match id.toNat?, t.toInt?, unesc name with
+        | some id, some t, some name =>
+          match arrivals.find? (fun a => a.2.id == id) with
+          | some a => tagged := tagged ++ [(a.1, { a.2 with time := t, name := name })]
+          | none => throw (.specfail "union-exactly-once" s!"{l}: emitted a message nobody delivered: {tok}")
+        | _, _, _ => throw (.badop l)
+      | _ => throw (.badop l)
+    let obsAll := st.uObs.reverse ++ tagged
+    if fin then
+      if !decide (Spec.unionExactlyOnceInOrder st.uN arrivals obsAll) then
+        throw (.specfail "union-exactly-once-in-order-flush" s!"{l}: delivered {uRenderOut arrivals} emitted {uRenderOut obsAll}")
+    else
+      if !decide (Spec.unionPrefixInOrder st.uN arrivals obsAll) then
+        throw (.specfail "union-exactly-once-in-order" s!"{l}: delivered {uRenderOut arrivals} emitted {uRenderOut obsAll}")
+    let ordered := decide (Spec.parentsOrdered st.uN arrivals)
+    if ordered && !decide (Spec.unionSorted obsAll) then
+      throw (.specfail "union-sorted" s!"{l}: emitted {uRenderOut obsAll}")
+    let mdl := [uRenderOut out, uRenderState s']
+    if !ok then throw (.mismatch s!"{l}: model ran out of fuel")
+    if obs != mdl then throw (.mismatch s!"{l}: model {mdl} observed {obs}")
+    let mut st := { st with un := s', uObs := tagged.reverse ++ st.uObs }
+    st := addBr st (if out.isEmpty then (if st.un.lowMarks.any Option.isNone then "u-wait-for-silent-parent" else "u-nothing-ready") else "u-emit")
+    if !ordered then st := addBr st "u-unordered-parent"
+    if st.uRename != "" then st := addBr st "u-rename"
+    if s'.sources.any (fun q => q.head > 0) then st := addBr st "u-queue-head-moved"
+    if s'.sources.any (fun q => q.cap > 4) then st := addBr st "u-queue-grown"
+    if (out.map (·.1)).eraseDups.length ≥ 2 then st := { addBr st "u-emit-from-several" with nontrivial := true }
+    if fin then
+      st := addBr st (if out.isEmpty then "u-finish-nothing-buffered" else "u-finish-flushes")
+      let r : RunRec := { cfg := s!"union {st.uN} {st.uRename}", seqs := (List.range st.uN).map (fun i => (st.uRaw.reverse.filter (fun s => s.startsWith s!"{i} "))),
+                          out := sortStrings (obsAll.map (fun p => s!"{p.2.id}:{p.2.time}:{esc p.2.name}")) }
+      match crossCheck st r with
+      | some d => throw (.specfail "union-interleaving-independent" d)
+      | none => pure ()
+      if st.runs.any (fun p => p.cfg == r.cfg && p.seqs == r.seqs) then st := addBr st "u-second-interleaving"
+      st := { st with runs := r :: st.runs }
+    pure st
+  judgeJoin (st : St) (l : String) (obs : List String) (nd : JNode) (sets : List (JSet JMsg)) (status : Status) (extra : List String) (fin : Bool) :
+      Except Verdict St := do
+    if obs == ["dead"] then
+      -- the node panicked earlier in this run; nothing more is executed on the implementation
+      if st.jDead then return st else throw (.mismatch s!"{l}: implementation dead, model alive")
+    if obs == ["panic"] then
+      throw (.specfail "join-total" s!"{l}: the join node panicked; everything buffered is lost (model status {statusTok status})")
+    if obs == ["err"] then throw (.specfail "join-total" s!"{l}: the join node returned an error")
+    let (outToks, stToks) := match obs with
+      | _ :: rest => (rest.takeWhile (· != "|"), (rest.dropWhile (· != "|")).drop 1)
+      | [] => ([], [])
+    let pts := outToks.filter (·.startsWith "P;")
+    let obsAll := st.jObs ++ pts
+    let steps := st.jSteps.reverse
+    let arrivals := st.jArr.reverse
+    let ordered := decide (Spec.joinOrdered st.jcfg steps)
+    if fin && ordered then
+      let want := sortStrings ((Spec.joinOutput st.jcfg arrivals).map renderOut)
+      let got := sortStrings obsAll
+      if want != got then throw (.specfail "join-pairs-by-occurrence" s!"{l}: spec {want} observed {got}")
+    -- correspondence
+    let mOut := (sets.filterMap (joinIntoPoint st.jcfg)).map renderOut ++ extra
+    let mOut := if fin then sortStrings mOut else mOut
+    let mdl := [toString mOut.length] ++ mOut ++ ["|"] ++ renderGroups nd
+    if status != .ok then throw (.mismatch s!"{l}: model status {statusTok status}, observed {obs}")
+    if obs != mdl then throw (.mismatch s!"{l}: model {mdl} observed {obs}")
+    ignore stToks
+    let mut st := { st with jn := nd, jObs := obsAll }
+    if !ordered then st := addBr st "j-unordered-parent"
+    for s in sets do
+      st := addBr st (if s.ready then "emit-ready-set" else match st.jcfg.fill with
+        | .none => "drop-incomplete-set-inner" | .null => "fill-null" | .num _ => "fill-number")
+      if s.ready then st := { st with nontrivial := true }
+    if !fin && sets.length ≥ 2 then st := addBr st "emit-several-at-once"
+    if !fin && sets.any (fun s => !s.ready) then st := addBr st "emit-nonready-heads-passed"
+    if st.jcfg.tol > 0 then st := addBr st "tolerance"
+    if st.jcfg.parents ≥ 3 then st := addBr st "three-parents"
+    if nd.groups.length ≥ 2 then st := addBr st "several-groups"
+    if fin then
+      st := addBr st (if sets.isEmpty then "finish-nothing-buffered" else "finish-flushes")
+      let r : RunRec := { cfg := st.jcfgText, seqs := seqsOf st.jcfg.parents st.jRaw, out := sortStrings obsAll }
+      if ordered then
+        match crossCheck st r with
+        | some d => throw (.specfail "join-interleaving-independent" d)
+        | none => pure ()
+        if st.runs.any (fun p => p.cfg == r.cfg && p.seqs == r.seqs) then st := addBr st "j-second-interleaving"
+      st := { st with runs := r :: st.runs }
+    pure st
+  ignore (_ : List String) : Except Verdict Unit := pure ()
+
+def judge (_id : String) (lines : Array String) : Verdict := Id.run do
+  let mut st : St := {}
+  -- the property first: a node that panicked lost what it had buffered, whatever the model says before
+  for l in lines do
+    let (opT, obs) := splitObs (tokens l)
+    if obs == ["panic"] then
+      match opT with
+      | "j" :: _ => return .specfail "join-total" s!"{" ".intercalate opT}: the join node panicked; everything buffered is lost"
+      | "u" :: _ => return .specfail "union-total" s!"{" ".intercalate opT}: the union node panicked; everything buffered is lost"
+      | _ => pure ()
+  for l in lines do
+    match judgeLine st l with
+    | .ok s => st := s
+    | .error v => return v
+  return .ok st.nontrivial st.branches.reverse
+
+end Kap.C12.Drv
+
+def main : IO Unit := Kap.driverMain Kap.C12.Drv.judge
